@@ -5,14 +5,13 @@ import os
 
 META = {
     "level": "proof",
-    "design_ref": "DESIGN.md section 8, C17; Appendix A 'Load'; finding F10 (fixed in 6bd743f); new finding F23",
+    "design_ref": "DESIGN.md section 8, C17; Appendix A 'Load'; findings F10 (fixed in 6bd743f), F23 (fixed in 8d15b4b)",
     "technique": "Coq proof about a logging model of Font::load_impl over an abstract file system (writer monad "
                  "recording every path consulted) + effect-order anchor with the request guards + "
                  "model/implementation correspondence over all 64 switch masks x filter shapes",
     "text": "Kernel-checked theorems about the model of Font::load_impl / LayerContents::load / Layer::load_impl for "
-            "format-3 UFOs: for EVERY request (six switches, any layer filter) and EVERY file system outside the known "
-            "class F23 (a default layer directory spelt other than `glyphs`; full statement refuted by a vm_compute "
-            "witness), if the full load succeeds then the partial load succeeds with `restrict r f` (un-requested parts at their defaults, layers "
+            "format-3 UFOs: for EVERY request (six switches, any layer filter) and EVERY file system, if the full load "
+            "succeeds then the partial load succeeds with `restrict r f` (un-requested parts at their defaults, layers "
             "filtered, default layer first, an empty placeholder if it was filtered out); the first layer is always "
             "the default one; no path belonging to an un-requested part is ever consulted (read set, for well-formed "
             "UFOs); the result depends only on the paths consulted, hence changing, corrupting or deleting "
@@ -108,44 +107,24 @@ def run(ctx, known, built):
         for j in parse_term(vals[1]):
             li = k * per + j
             r = rows[int(meta[li][0])]
-            if meta[li][1] == "requested-damaged" or r["class_f23"]:
-                continue       # outside the theorem's hypotheses
+            if meta[li][1] == "requested-damaged":
+                continue       # the pristine full load says nothing about a damaged tree
             ctx.disagreements.append({
                 "what": "the model's partial load is not the restricted full load (theorem C17_restrict would be false)",
                 "seed": ctx.seed, "case": r["case"], "scenario": r})
-    known_ids = {k["id"] for k in known}
-    # the class predicate of F23 exists twice: Coq (default_plainb on the abstract file system) and harness
-    ufo_ids = sorted({r["ufo"] for r in rows})
-    cf = os.path.join(out, "classes.v")
-    with open(cf, "w") as f:
-        f.write(HDR + fsdefs + "\n")
-        f.write("Eval vm_compute in [%s].\n" % ";".join('negb (default_plainb m%d ["u"])' % u for u in ufo_ids))
-    if built:
-        rc2, o2 = ctx.coqc(cf, timeout=600)
-        vals = coq_values(o2) if rc2 == 0 else []
-        if len(vals) != 1:
-            ctx.disagreements.append({"what": "class predicate F23 could not be evaluated", "output": o2[-500:]})
-        else:
-            model_cls = dict(zip(ufo_ids, [str(x) == "true" for x in parse_term(vals[0])]))
-            for r in rows:
-                if model_cls.get(r["ufo"]) != r["class_f23"]:
-                    ctx.disagreements.append({"what": "class predicate F23 differs between model and harness",
-                                              "ufo": r["ufo"], "model": model_cls.get(r["ufo"]), "harness": r["class_f23"]})
-                    break
-    witness_failed = False
     for r in rows:
+        # regression input (former finding F23, `./glyphs`): every load must refuse it
+        if r["must_be_rejected"] and not r["pristine"].startswith("(InvalidLayerDirectory"):
+            ctx.violations.append({
+                "seed": ctx.seed, "case": r["case"], "scenario": r,
+                "failed": ["a layer directory that is not a plain name (corpus/C17/f23_dot_glyphs.txt) is accepted again: %s" % r["pristine"]],
+                "demand": "the default layer is always present: such a UFO either loads with every request or with none"})
+            continue
         if not r["oracle_ok"]:
-            if r["class_f23"]:
-                witness_failed = True
-                if "F23" in known_ids:
-                    ctx.known_hits["F23"] = ctx.known_hits.get("F23", 0) + 1
-                    continue
             ctx.violations.append({
                 "seed": ctx.seed, "case": r["case"], "scenario": r, "failed": r["why"],
                 "demand": "partial load = full load restricted to the request; default layer present and first; "
                           "corrupting files of un-requested parts changes nothing"})
-    if "F23" in known_ids and not witness_failed:
-        ctx.assumptions.append("stale known finding F23: the witness corpus/C17/f23_dot_glyphs.txt no longer fails")
     ctx.obligation("correspondence:C17 (%d shards)" % len(shards), nok == len(shards) and not ctx.disagreements,
                    "model and implementation differ")
     nontrivial = {(r["ufo"], r["mask"], r["shape"]) for r in rows if r["n_unrequested"] > 0}
